@@ -546,6 +546,16 @@ impl<'src> Walker<'src>
 		{
             let c = self.char_at(byte_index);
 
+            // Comments are skipped as a whole, as the tokenizer does
+            if c == ';'
+            {
+                let (_, length) = syntax::decide_next_token(
+                    &self.src[byte_index..self.cursor_limit]);
+
+                byte_index += length;
+                continue;
+            }
+
             if c.eq_ignore_ascii_case(&wanted_char) &&
                 seen_tokens &&
                 paren_nesting == 0 &&
